@@ -95,7 +95,14 @@ def no_retry(f, actor_name):
             logging.getLogger(__name__).exception("Error in %s", actor_name)
             # don't forward the exception as is because the main process might not have this class available on the load path
             # and will fail then while deserializing the cause.
-            self.send(sender, BenchmarkFailure(traceback.format_exc()))
+            failure = BenchmarkFailure(traceback.format_exc())
+            if sender == self.myAddress:
+                # We have failed while handling a message from ourselves (e.g. a wakeup). Handle the failure right away: a message to
+                # ourselves would queue up behind messages that have already arrived (e.g. the one that completes the benchmark) and
+                # the failure would be reported too late or, if we exit in the meantime, not at all.
+                self.receiveMessage(failure, sender)
+            else:
+                self.send(sender, failure)
 
     return guard
 
